@@ -524,6 +524,49 @@ pub fn run_property<P: Property>(p: &P, tier: Tier, seed: u64, only_suite: Optio
             rep.inconclusive.push(m);
         }
     }
+    // replay tier: committed regression cases (/verif/regress/<prop>/*.json) bypass proptest
+    if only_suite.is_none() {
+        let dir = format!("{VERIF_DIR}/regress/{}", p.id());
+        let mut files: Vec<_> = std::fs::read_dir(&dir).map(|d| d.filter_map(|e| e.ok()).map(|e| e.path()).collect()).unwrap_or_default();
+        files.sort();
+        let mut py = PySlot::default();
+        for f in files {
+            if f.extension().and_then(|e| e.to_str()) != Some("json") {
+                continue;
+            }
+            let body: Value = match std::fs::read_to_string(&f).ok().and_then(|t| serde_json::from_str(&t).ok()) {
+                Some(b) => b,
+                None => continue,
+            };
+            if body["kind"].as_str().unwrap_or("case") != "case" {
+                continue;
+            }
+            let suite = match body["suite"].as_str().and_then(SuiteId::from_name) {
+                Some(s) => s,
+                None => continue,
+            };
+            let case: P::Case = match serde_json::from_value(body["case"].clone()) {
+                Ok(c) => c,
+                Err(_) => {
+                    rep.inconclusive.push(format!("regression case {} no longer decodes", f.display()));
+                    continue;
+                }
+            };
+            let mut ctx = Ctx { prop: p.id(), suite, tier, known: &known, stats: Stats::default(), py: &mut py, strict: false };
+            let r = guarded(p.id(), || p.check(suite, &case, &mut ctx));
+            ctx.stats.labels.insert("regression-replay".into(), 1);
+            let st = ctx.stats.clone();
+            match r {
+                Ok(()) => {
+                    *rep.per_suite.entry("regression-replay".into()).or_default() += st.evaluations;
+                    rep.stats.merge(&st);
+                }
+                Err(fl) if fl.key == INCONCLUSIVE => rep.inconclusive.push(fl.msg),
+                Err(fl) => rep.violations.push(Violation { suite: suite.name().to_string(), failure: fl, case: body["case"].clone(), replay_kind: "case".into() }),
+            }
+        }
+        py.shutdown();
+    }
     // extra stage
     if rep.violations.is_empty() && only_suite.is_none() {
         let mut ex = ExtraOut::default();
